@@ -831,7 +831,7 @@ var abciMuts = []mutInfo{
 	{"Code", "free"}, {"Key", "bound"}, {"Key:empty", "bound"}, {"Value", "bound"}, {"Value:nil", "bound"}, {"Value:empty", "bound"},
 	{"Height", "bound"}, {"Height:zero", "bound"}, {"ProofOps:nil", "proof"}, {"ProofOps:drop-op", "proof"}, {"ProofOps.Key", "proof"},
 	{"ProofOps.Type", "proof"}, {"ProofOps.Data", "proof"}, {"ProofOps:swap", "proof"}, {"Value+ProofOps", "bound"},
-	{"Log", "free"}, {"Info", "free"}, {"Index", "free"}, {"Codespace", "free"}, {"Key+Value+ProofOps:other-key", "request"}, {"Answer:other-height", "request"}, {"Value+ProofOps:degenerate-prefix", "proof"}, {"Value+ProofOps:keyless-prefix", "proof"}, {"Answer:from-store-path", "other"},
+	{"Log", "free"}, {"Info", "free"}, {"Index", "free"}, {"Codespace", "free"}, {"Key+Value+ProofOps:other-key", "request"}, {"Answer:other-height", "request"}, {"Value+ProofOps:degenerate-prefix", "proof"}, {"Value+ProofOps:keyless-prefix", "proof"}, {"Answer:from-store-path", "other"}, {"Key:sibling-encoding", "proof"},
 }
 
 func mutABCI(c *chain, res *ctypes.ResultABCIQuery, mut string, k int) {
@@ -962,6 +962,16 @@ func mutABCI(c *chain, res *ctypes.ResultABCIQuery, mut string, k int) {
 		h := int64(1 + k%c.spec.n)
 		if hon, err := core.ABCIQuery(rctx, "/store/"+string(r.ProofOps.Ops[1].Key)+"/key", r.Key, h, true); err == nil {
 			roundTrip(hon, res)
+		}
+	case "Key:sibling-encoding": // value+proof of the key whose encoding collides under the OTHER unescape ('+' vs ' '), labelled with the asked key
+		if r.ProofOps == nil || len(r.ProofOps.Ops) != 2 || !strings.Contains(string(r.Key), "+") {
+			return
+		}
+		asked := append([]byte{}, r.Key...)
+		sib := strings.ReplaceAll(string(r.Key), "+", " ")
+		if hon, err := core.ABCIQuery(rctx, "/store/"+string(r.ProofOps.Ops[1].Key)+"/key", []byte(sib), r.Height, true); err == nil && hon.Response.Value != nil {
+			roundTrip(hon, res)
+			res.Response.Key = asked
 		}
 	case "Answer:from-store-path": // a genuine proven answer, whatever path was asked
 		if hon, err := core.ABCIQuery(rctx, "/store/acc/key", []byte("genesis"), int64(1+k%c.spec.n), true); err == nil {
